@@ -347,7 +347,9 @@ func (s *sackDriver) handleHandshake() error {
 			foundSackPermitted = true
 		case layers.TCPOptionKindTimestamps:
 			if len(opt.OptionData) < 8 {
-				return fmt.Errorf("sackDriver found truncated timestamps option")
+				// a malformed SYNACK cannot be the handshake of our connection: skip it and keep waiting
+				log.Debugf("sackDriver ignored a SYNACK with a truncated timestamps option")
+				return nil
 			}
 			remoteTSValue := binary.BigEndian.Uint32(opt.OptionData[:4])
 			remoteTSEcr := binary.BigEndian.Uint32(opt.OptionData[4:8])
